@@ -39,6 +39,7 @@ def c05(tier, seed):
 
 
 ENGINES = {
+    "seqops": ({"C09"}, "Lengthen/Shorten/Split/Concat/Remove vs Vec, exhaustive N<=8 + boundary shapes"),
     "iterq": ({"C06"}, "by-value iterator vs VecDeque / native-array twins: exhaustive one-step + random sequences"),
     "faults": ({"C04", "C05"}, "fault enumeration: injected panics at every callback index / destructor bombs, ownership ledger; native + Miri + ASan + memcheck"),
 }
@@ -61,7 +62,43 @@ def c06(tier, seed):
     ]
 
 
+ALLNATIVE = "Tok,Tok24,ZTok,u8,u32,[u64;3],(),String"
+
+
+def c09(tier, seed):
+    if tier == "quick":
+        return [
+            Run("seqops", "debug", ["--flavours", ALLNATIVE], shards=2),
+            Run("seqops", "miri", ["--flavours", "HeapTok,ZTok,u8,[u64;3]", "--maxn", "4"], shards=16, label="seqops/miri(N<=4)"),
+        ]
+    return [
+        Run("seqops", "debug", ["--flavours", ALLNATIVE], shards=8),
+        Run("seqops", "release", ["--flavours", ALLNATIVE], shards=8),
+        Run("seqops", "miri", ["--flavours", "HeapTok,ZTok,u8,u32,[u64;3],(),Tok24", "--maxn", "6", "--part", "small"], shards=32, label="seqops/miri(N<=6)"),
+        Run("seqops", "miri", ["--flavours", "u8,ZTok", "--maxn", "65", "--part", "big"], shards=8, label="seqops/miri(big<=65)"),
+        Run("seqops", "asan", ["--flavours", "HeapTok,String,u8,[u64;3]"], shards=4),
+    ]
+
+
 SPECS = {
+    "C09": dict(
+        engine="seqops",
+        technique="reference-model monitor (Vec push/insert/pop/remove/split_at/extend/swap_remove) + address/extent checks + ownership ledger, exhaustive for N<=8; Miri/ASan for out-of-bounds copies",
+        level="exploration",
+        level_text=("Every (N, K), (N, M), index (0..=N+1, usize::MAX) for N in 0..=8 and 9 element flavours (sizes 0, 1, 4, 8, 16, 24; "
+                    "drop-tracked and plain) is executed and compared with the same operation on a Vec of the elements' identities; by-reference "
+                    "split halves are checked by address and extent and written through; out-of-range remove/swap_remove must panic with the "
+                    "ledger balanced. Miri re-runs N<=4 so an off-by-one copy that reads past the array is reported even when the value is discarded."),
+        level_note="Trusted: Vec as the executable specification; ledger; Miri/ASan. Boundary lengths (255..257, 1000, 1023, 1024) in the thorough tier.",
+        runs=c09,
+        min_cases=3000,
+        must_count=["ledger.drops", "ledger.zst_drops"],
+        exhaustive={"quick": True, "thorough": True},
+        rule=("one case = (operation, element flavour, N, parameter K / M / index i); exhaustive over N<=8; non-trivial = the arrays involved "
+              "hold at least one element"),
+        explanation="Vec-model equality by element identity, address arithmetic for by-reference split, ledger for exactly-once on the panic path",
+        assumptions=["lengths above 8 are covered by boundary shapes only (thorough tier)"],
+    ),
     "C06": dict(
         engine="iterq",
         technique="reference-model monitor (VecDeque + [T;N]::into_iter twins) over exhaustive one-step transitions and seeded random sequences; ledger for overlap/skip; Miri/ASan",
